@@ -16,6 +16,10 @@ structure Fields where
   lengthSizeMinusOne : Nat
 deriving DecidableEq, Repr
 
+/-- `avc_level_indication()` is `Level::from_constraint_flags_and_level_idc(profile_compatibility, level byte)`: the
+stored byte, read as Level 1b exactly when it is 11 and constraint_set3_flag is set (table proved in C20) -/
+def Fields.levelIs1b (f : Fields) : Bool := f.level = 11 && f.compat / 16 % 2 = 1
+
 /-- the accessors, each a bounds-checked index -/
 def fields (d : List UInt8) : Res Fields := do
   let v ← idx d 0
